@@ -153,16 +153,37 @@ func runC11(c *an.Ctx) {
 		if fn == nil {
 			continue
 		}
-		okEsc := false
-		an.Instrs(fn, func(in ssa.Instruction) {
-			if cl, ok := an.IsPkgFuncCall(in, "net/url", "PathEscape"); ok {
-				for _, prm := range fn.Params {
-					if cl.Common().Args[0] == ssa.Value(prm) {
-						okEsc = true
+		// directly, or by handing the key to another function of the package that does
+		var encodes func(f *ssa.Function, d int) bool
+		encodes = func(f *ssa.Function, d int) bool {
+			hit := false
+			an.Instrs(f, func(in ssa.Instruction) {
+				cl := an.AsCallAny(in)
+				if cl == nil || len(cl.Common().Args) == 0 {
+					return
+				}
+				isParam := false
+				for _, a := range cl.Common().Args {
+					for _, prm := range f.Params {
+						if a == ssa.Value(prm) {
+							isParam = true
+						}
 					}
 				}
-			}
-		})
+				if !isParam {
+					return
+				}
+				if _, ok := an.IsPkgFuncCall(in, "net/url", "PathEscape"); ok {
+					hit = true
+				} else if g := cl.Common().StaticCallee(); g != nil && g.Blocks != nil && g.Pkg == f.Pkg && d < 2 && g != f {
+					if encodes(g, d+1) {
+						hit = true
+					}
+				}
+			})
+			return hit
+		}
+		okEsc := encodes(fn, 0)
 		c.Check("J1", "key-encoder-is-PathEscape@"+name, fn.Pos(), okEsc, name+" must encode its key argument with url.PathEscape")
 	}
 	// oracle facts about PathEscape used by the injectivity argument
@@ -406,18 +427,30 @@ func runC11(c *an.Ctx) {
 	// ---------------- J4 ----------------
 	refresh := c.NeedFunc(pkgCore, "(*Node).refreshState")
 	if refresh != nil {
+		fam := familyOf(p, refresh, 2)
 		nonNil := func(in ssa.Instruction, callee string) bool {
-			g, _ := an.GuardedBy(in, func(r an.Rel) bool {
+			return guardedInFamily(p, fam, in, func(r an.Rel) bool {
 				if r.Op != token.NEQ || !an.IsNil(r.Y) {
 					return false
 				}
 				cl, ok := r.X.(*ssa.Call)
 				return ok && cl.Call.StaticCallee() != nil && cl.Call.StaticCallee().Name() == callee
-			})
-			return g
+			}, 0)
 		}
 		n := 0
-		an.Instrs(refresh, func(in ssa.Instruction) {
+		var famInstrs []ssa.Instruction
+		for _, m := range fam {
+			if m.Name() == "updateState" {
+				continue
+			}
+			famInstrs = append(famInstrs, instrsOf(m)...)
+		}
+		each := func(f func(ssa.Instruction)) {
+			for _, in := range famInstrs {
+				f(in)
+			}
+		}
+		each(func(in ssa.Instruction) {
 			cl, ok := in.(*ssa.Call)
 			if !ok || cl.Call.StaticCallee() == nil || cl.Call.StaticCallee().Name() != "updateState" {
 				return
@@ -442,7 +475,7 @@ func runC11(c *an.Ctx) {
 					"the state update must be applied to the value returned by "+want)
 			}
 		})
-		c.Floor("J4", "updateState calls in refreshState", n, 2)
+		c.Floor("J4", "updateState calls in refreshState or its private helpers", n, 2)
 	}
 	getFork := c.NeedFunc(pkgCore, "(*Node).getFork")
 	forks := p.Field(pkgCore, "Node", "forks")
